@@ -43,19 +43,25 @@ theorem nth_oracle_exception_ignored :
      | .reject => true
      | _ => false) = true := by decide
 
-/-- `@page :nth(+) { … }` (finding `page-nth-lone-plus-crash`): after a lone `+` `tinycss2.nth.parse_nth` runs
-`next()` on the exhausted token iterator and raises `StopIteration`; repair 9ef10c8 catches only
-`AttributeError` and `ValueError`, so this exception still leaves `parse_page_selectors` (and, raised inside the
-`find_stylesheets` generator, aborts the rendering as `RuntimeError: generator raised StopIteration`).  The
-full-strength statement "`parse_page_selectors` never raises" is therefore still false; the true statement is
-`C14.parse_raises_only_uncaught`. -/
-theorem nth_lone_plus_exception_propagates :
+/-- Regression case of the repaired finding `page-nth-lone-plus-crash` (54b52a1): on `@page :nth(+) { … }` (and
+`:nth(+ of a)`) `tinycss2.nth.parse_nth` runs `next()` on the exhausted token iterator after the lone `+` and raises
+`StopIteration`; `parse_page_selectors` now catches it too and returns `None`: the rule is ignored (before the repair
+the result was `.raised "StopIteration"`, surfacing as `RuntimeError: generator raised StopIteration` out of the
+stylesheet generator).  General statements: `C14.parse_raises_only_uncaught`, `C14.parse_total_partial`. -/
+theorem nth_lone_plus_exception_ignored :
     (match parsePageSelectors [.literal ":", .func "nth" [.other] [.none, .raised "StopIteration"]] with
-     | .raised "StopIteration" => true
+     | .reject => true
      | _ => false) = true ∧
     (match parsePageSelectors [.literal ":", .func "nth" [.other, .ws, .ident "of", .ws, .ident "a"]
         [.none, .raised "StopIteration", .none, .none, .none, .none]] with
-     | .raised "StopIteration" => true
+     | .reject => true
+     | _ => false) = true := by decide
+
+/-- What still passes is an exception of any *other* class (none is known for tinycss2 1.5): the parser has no
+catch-all, `C14.parse_raises_only_uncaught` is the strongest true statement. -/
+theorem nth_other_exception_propagates :
+    (match parsePageSelectors [.literal ":", .func "nth" [.other] [.none, .raised "KeyError"]] with
+     | .raised "KeyError" => true
      | _ => false) = true := by decide
 
 /-- `@top-left` and `@top-right` with unbreakable content of min-content width 80 each on a side of
